@@ -276,12 +276,17 @@ func TestC09(t *testing.T) {
 		arena, _ = os.MkdirTemp("", "c09-arena-")
 	}
 
+	srcRoot := os.Getenv("VERIF_EGO_SRC")
+	if srcRoot != "" && os.Getenv("VERIF_EGO_LIB") == "" {
+		// the sample services import library packages (lib/packages/math ...): give the interpreter the tree's lib/
+		os.Setenv("VERIF_EGO_LIB", filepath.Join(srcRoot, "lib"))
+	}
+
 	sandbox := filepath.Join(arena, "c09", "sandbox")
 	initRunner(sandbox)
 	runExtensions = true // try/catch is a language extension
 	_ = os.Chdir(sandbox)
 
-	srcRoot := os.Getenv("VERIF_EGO_SRC")
 	mix := c09Mix(srcRoot)
 
 	// which service kinds work without the full server fixture is decided by a dry run
